@@ -28,7 +28,7 @@ ROUTES = ["attr", "ctor", "default", "default-callable", "digest-default", "load
 
 
 def bounds(tier):
-    return {"algorithms": ALGS if tier == "thorough" else ["md5", "sha512", "sha256"],
+    return {"algorithms": ALGS,
             "formats": FORMATS if tier == "thorough" else ["json", "xml"], "secrets": len(SECRETS), "routes": ROUTES,
             "sequence_depth": 3}
 
